@@ -8,6 +8,8 @@ import ber
 import codec as C
 import drive
 import gen
+import guard
+import impl as IMPL
 import p_recv as PR
 from codec import M, sansldap
 
@@ -33,10 +35,10 @@ def accounting(prep, chunks, how="bytes"):
             if how == "reused-bytearray":
                 shared[:] = ch
                 ms = s.receive(shared)
-            elif how == "memoryview":
-                ms = s.receive(memoryview(bytes(ch)))
+            elif how.startswith("memoryview"):
+                ms = guard.guarded(lambda: s.receive(IMPL.input_object(bytes(ch), how)), 20.0)
             else:
-                ms = s.receive(bytes(ch))
+                ms = guard.guarded(lambda: s.receive(bytes(ch)), 20.0)
         except sansldap.ProtocolError:
             return None            # accounted for by an error
         except BaseException as e:  # noqa: BLE001
@@ -91,7 +93,7 @@ def run(ctx):
             parts += [[data[:i], data[i:]] for i in range(len(data) + 1)]
         for chunks in parts:
             evaluations += 1
-            how = ("bytes", "reused-bytearray", "bytes", "memoryview")[evaluations % 4]
+            how = ("bytes", "reused-bytearray", "bytes", "memoryview", "memoryview-signed", "bytes", "memoryview-char", "memoryview-ctypes")[evaluations % 8]
             hist["input-object:" + how] += 1
             v = accounting(prep, chunks, how)
             if v:
